@@ -301,10 +301,21 @@ def correlated_leaves(rnd):
     return circgen.build(xs, gates, [g[4]])
 
 
+def six_leaf_cone(k):
+    """x_k and none of the other five inputs: a cone with six leaves (only reached with cut_size >= 6)."""
+    xs = [f"x{i}" for i in range(6)]
+    others = [x for i, x in enumerate(xs) if i != k]
+    gates = [("o1", G.OR, (others[0], others[1])), ("o2", G.OR, ("o1", others[2])), ("o3", G.OR, ("o2", others[3])), ("o4", G.OR, ("o3", others[4])), ("f", G.GT, (xs[k], "o4"))]
+    return circgen.build(xs, gates, ["f"])
+
+
 MODEL_SWEEP = ("complementary-outputs-xor", "complementary-outputs-mux", "output-is-cone-member", "negated-leaf-exported")
 
 
 def unit(p, item, tier, seed):
+    if isinstance(item, tuple) and item[0] == "six":
+        run_case(p, f"six-leaf-cone-{item[1]}", six_leaf_cone(item[1]), dict(basis="XAIG", enable_validation=bool(item[1] % 2), cut_size=6, solver_time_limit_sec=0), "canonical")
+        return
     if isinstance(item, tuple):
         # whichever admissible model the solver returns: random-phase models under a range of seeds
         _, name, basis, lo, hi = item
@@ -329,6 +340,7 @@ def unit(p, item, tier, seed):
             for basis in ("AIG", "XAIG", "FULL"):
                 run_case(p, name, c0, dict(basis=basis, enable_validation=True, max_subcircuit_size=9, solver_time_limit_sec=15, cut_size=5, cut_limit=25), "canonical")
                 run_case(p, name, c0, dict(basis=basis, enable_validation=False, solver_time_limit_sec=0), "canonical")
+
 
         for k in range(2 if not thorough else 4):
             params = dict(
@@ -361,7 +373,7 @@ def run(rep, tier, seed, only=None):
     rep.functions = ["minimization.subcircuit.minimize_subcircuits / _get_subcircuits / _eval_dont_cares / _Subcircuit.evaluate_truth_table_with_dont_cares / _PatternOperations / _rename_subcircuit_gates / _get_internal_gates",
                      "Circuit.replace_subcircuit", "CircuitFinderSat (time-limited path)", "build_miter + is_circuit_satisfiable (validation)"]
     rep.bounds = {"circuits": "special redundant circuits + seeded binary circuits over the 11 supported types, <=4 inputs, <=7 (quick) / <=9 (thorough) base gates plus redundancy",
-                  "parameters": "basis AIG/XAIG/FULL (str), max_subcircuit_size {2,4,9}, cut_size {2,3,5}, cut_limit {2,25}, time limit {15} quick / {1,15} thorough",
+                  "parameters": "basis AIG/XAIG/FULL (str), max_subcircuit_size {2,4,9}, cut_size {2,3,5} (+ 6 on six-leaf cones), cut_limit {2,25}, time limit {15} quick / {1,15} thorough",
                   "cut families": "canonical, reversed, shuffled(seed), truncated(2)", "solver models": "z3's own model + random-phase models under 40 (quick) / 200 (thorough) seeds on cones with complementary outputs, one random seed per seeded case", "time-limit schedules": "no call, exactly the k-th call (k<4 quick / <6 thorough), every call from the k-th on times out (environment stub of pebble's time-limited future)", "hash seeds": "the runner's own PYTHONHASHSEED (quick); subprocess per seed 0..3 (thorough)"}
     rep.outside = ["n-ary gates (pattern simulation reads two operands)", "hash seeds other than those run", "circuits with functionally equivalent gates: internal errors there are counted, not alarmed (the property excludes them)"]
     rep.rule = "program = (circuit, parameter setting, cut family); equivalence decided by z3 over all inputs"
@@ -381,4 +393,5 @@ def run(rep, tier, seed, only=None):
             except Exception as e:  # noqa: BLE001
                 rep.error(f"hash-seed child {hs} failed: {e}: {r.stderr[-500:]}")
     sweep = [("models", name, basis, lo, lo + 10) for name in MODEL_SWEEP for basis in ("AIG", "XAIG", "FULL") for lo in range(1, 201 if thorough else 41, 10)]
+    sweep += [("six", k) for k in (range(6) if thorough else (0, 3, 5))]
     rep.pmap(unit, sweep + [seed * 61 + s for s in range(32 if thorough else 16)], may_fork=True)
